@@ -118,6 +118,9 @@ func (in *Interp) unsupported(format string, args ...any) {
 }
 
 func (in *Interp) targetPanicMsg(msg string) {
+	if in.P.Cfg.TracePanics {
+		msg += "\n" + in.stackTrace()
+	}
 	panic(targetPanic{Iface{T: in.P.runtimeErrorString, V: msg}})
 }
 
@@ -184,7 +187,7 @@ func (in *Interp) rollback() {
 var noInitPkgs = map[string]bool{
 	"runtime": true, "syscall": true, "os": true, "reflect": true, "time": true,
 	"sync/atomic": true, "unsafe": true, "os/signal": true, "os/exec": true, "net": true,
-	"testing": true, "log": true, "flag": true,
+	"testing": true, "log": true, "flag": true, "go/build": true,
 }
 
 func skipInit(path string) bool {
@@ -192,7 +195,7 @@ func skipInit(path string) bool {
 		return true
 	}
 	if strings.HasPrefix(path, "internal/") && path != "internal/godebugs" && path != "internal/goversion" &&
-		path != "internal/types/errors" && path != "internal/buildcfg" {
+		path != "internal/types/errors" {
 		return true
 	}
 	if strings.HasPrefix(path, "runtime/") || strings.HasPrefix(path, "vendor/") || strings.HasPrefix(path, "crypto/") {
